@@ -30,7 +30,7 @@ func checkC07(p *Prog, r *Report) {
 		rRoute := r.Rule("route", "the script handler is registered for /c with no method or host restriction")
 		nr := 0
 		for _, rt := range muxRoutes(p) {
-			if nil == rt.Handler || "scriptHandler" != rt.Handler.Name() {
+			if nil == rt.Handler || rt.Handler != p.Func(hsrvPkg, "Server", "scriptHandler") {
 				continue
 			}
 			nr++
